@@ -176,11 +176,11 @@ func runC18(c *fw.Ctx) {
 		nchoices int
 		pals     []int
 	}
-	lays := []lay{{"L3", 4, []int{0, 1, 2, 3, 4}}, {"L4", 4, []int{0, 1, 2, 3, 4}}, {"L8", 3, []int{0, 2}}}
+	lays := []lay{{"L3", 4, []int{0, 1, 2, 3, 4}}, {"L4", 4, []int{0, 1, 2, 3, 4}}, {"L8", 3, []int{0, 2}}, {"L10", 3, []int{1, 4}}}
 	if c.Thorough() {
-		lays = append(lays, lay{"L5", 3, []int{0, 1}}, lay{"L8", 4, []int{1, 3}})
+		lays = append(lays, lay{"L5", 3, []int{0, 1}}, lay{"L8", 4, []int{1, 3}}, lay{"L10", 4, []int{0, 2, 3}})
 	}
-	c.R.Bounds["contents"] = "every assignment of {absent, value A, stale lap, value B} to every slot of L3 (3 slots), L4 (5 slots) x 5 palettes of awkward doubles; {absent, A, stale} on L8 (7 slots) x 2 palettes"
+	c.R.Bounds["contents"] = "every assignment of {absent, value A, stale lap, value B} to every slot of L3 (3 slots), L4 (5 slots) x 5 palettes of awkward doubles; {absent, A, stale} on L8 (7 slots) and on the three-level L10 (6 slots) x 2 palettes"
 	for _, ly := range lays {
 		ld := LayoutByTag(ly.tag)
 		clocks := Clocks(ld.Archs, false, []string{"mid"})
